@@ -123,7 +123,7 @@ func c20R1(r *Report) {
 		equalOn := func(al *ssa.Alloc, b *ssa.BasicBlock, from *ssa.BasicBlock) bool {
 			gs := guardsOf(b)
 			if from != nil {
-				gs = append(gs, edgeGuard(from, b)...)
+				gs = expandGuards(append(gs, edgeGuard(from, b)...))
 			}
 			for _, g := range gs {
 				g = g.norm()
